@@ -18,6 +18,20 @@ pub trait Optimizer {
         F: for<'a> Fn(&[Var<'a>], &[&[f64]]) -> Var<'a>;
 }
 
+/// Relative change of a parameter between two successive iterations, used by the convergence
+/// tests of `Adam` and `SGD`: `|new - old| / min(|new|, |old|)`, or the absolute change when
+/// either value is zero. Unlike `approx_eq::rel_diff`, which compares magnitudes only, a change
+/// of sign counts as a change (`x -> -x` is not convergence).
+pub(crate) fn rel_change(new: f64, old: f64) -> f64 {
+    if new == 0. {
+        old.abs()
+    } else if old == 0. {
+        new.abs()
+    } else {
+        (new - old).abs() / f64::min(new.abs(), old.abs())
+    }
+}
+
 pub use self::adam::*;
 // pub use self::lbfgs::*;
 pub use self::lm::*;
